@@ -215,13 +215,14 @@ func init() {
 		Plan: []planEntry{
 			{Engine: "A", Scenario: "transfer", Quick: 30, Thorough: 400},
 			{Engine: "A", Scenario: "transfer-faults", Quick: 12, Thorough: 150},
+			{Engine: "A", Scenario: "transfer-timeout-pending-action", Quick: 6, Thorough: 60},
 		},
 		Rule:       "seeded live-cluster runs issuing leadership transfers (target given / any / invalid / non-voter / lagging) with stalls, one-way cuts, connection breaks and concurrent client and membership tasks; non-trivial if at least 3 transfers chose a target; distinct = distinct abstract trace",
-		Nontrivial: all(ge("transfer-targets-chosen", 3)),
+		Nontrivial: either(all(ge("transfer-targets-chosen", 3)), ge("pending-actions-after-failed-transfer:resumed", 1)),
 		Includes:   map[string]string{"C01": "transfer-targets-chosen"},
 		MinQuick:   20, MinThorough: 200,
 		Counters:     []string{"transfer-targets-chosen", "transfers-succeeded", "transfers-failed", "timeout-now-delivered", "leader-appends", "leaders-elected"},
-		Prefixes:     []string{"admin:transfer:", "timeout-now:"},
+		Prefixes:     []string{"admin:transfer:", "timeout-now:", "pending-actions-after-failed-transfer:"},
 		SampleTopics: []string{"transfer"},
 		Assumptions:  stdAssumptions,
 	}
